@@ -1,4 +1,7 @@
 pub mod c10;
+pub mod c13;
+pub mod c14;
+pub mod c15;
 
 use crate::report::Report;
 
@@ -6,6 +9,9 @@ use crate::report::Report;
 pub fn run(id: &str, tier: &str) -> i32 {
     match id {
         "C10" => c10::run(tier),
+        "C13" => c13::run(tier),
+        "C14" => c14::run(tier),
+        "C15" => c15::run(tier),
         _ => {
             eprintln!("unknown property id {}", id);
             2
